@@ -1594,6 +1594,65 @@ impl<'a> World<'a> {
     }
 }
 
+impl<'a> World<'a> {
+    /// C08: a response left partly written by an earlier short write is "queued" too: once the
+    /// client has emptied its socket and what is still owed (remainder + queued responses)
+    /// fits an empty socket buffer, one flush_outgoing_writes() must deliver all of it.
+    /// (An empty AF_UNIX stream socket accepts at least (SO_SNDBUF/2 - 64) >= 2240 bytes even
+    /// at the minimal SO_SNDBUF; the rule only judges remainders estimated below 1800 bytes.)
+    pub fn flush_remainder_probe(&mut self) {
+        if self.violation.is_some() {
+            return;
+        }
+        let mut judged = vec![];
+        for i in 0..self.clients.len() {
+            if self.cfg.clients[i].role != Role::WellBehaved || !self.clients[i].accepted {
+                continue;
+            }
+            let c = &self.clients[i];
+            if c.closed || c.shut_rd || c.eof || c.reset || c.supplied.is_empty() {
+                continue;
+            }
+            let sfd = match c.server_fd {
+                Some(f) => f,
+                None => continue,
+            };
+            if !self.server_table().iter().any(|e| e.0 == sfd && e.1 == 1) {
+                continue; // nothing to write for this connection
+            }
+            self.recv(i, 0);
+            if self.violation.is_some() {
+                return;
+            }
+            let c = &self.clients[i];
+            let owed: usize = c.supplied.iter().map(|(_, s)| *s + 200).sum();
+            if owed.saturating_sub(c.rx.len()) <= 1800 {
+                judged.push(i);
+            }
+        }
+        if judged.is_empty() {
+            return;
+        }
+        let r = util::catch(|| self.server.as_mut().unwrap().flush_outgoing_writes());
+        if let Err(p) = r {
+            return self.fail("panic", format!("flush_outgoing_writes panicked: {}", p));
+        }
+        for i in judged {
+            self.recv(i, 0);
+            if self.violation.is_some() {
+                return;
+            }
+            let c = &self.clients[i];
+            let (rs, _, _) = read_all(&c.rx);
+            let n200 = rs.iter().filter(|r| r.code == 200).count();
+            if n200 != c.supplied.len() {
+                let d = format!("client {} had emptied its socket and less than 1800 bytes of the {} supplied responses were still owed (they fit the empty socket buffer), yet after flush_outgoing_writes it holds only {} complete responses ({} bytes received)", i, c.supplied.len(), n200, c.rx.len());
+                return self.fail("flush-incomplete-remainder", d);
+            }
+        }
+    }
+}
+
 impl<'a> Drop for World<'a> {
     fn drop(&mut self) {
         self.outstanding.clear();
@@ -1690,6 +1749,16 @@ impl SrvCfg {
                 let mut st = vec![json!({"probe": "flush_probe"})];
                 st.extend(w.steps.drain(n0..));
                 return (Some(v), st);
+            }
+            if self.small_sndbuf {
+                let mut w = self.execute(path, tracing, self.kill_switch);
+                let n0 = w.steps.len();
+                w.flush_remainder_probe();
+                if let Some(v) = w.violation.take() {
+                    let mut st = vec![json!({"probe": "flush_remainder_probe"})];
+                    st.extend(w.steps.drain(n0..));
+                    return (Some(v), st);
+                }
             }
         }
         (None, vec![])
